@@ -224,7 +224,7 @@ class NDOptionBase (packet_base):
 
   def pack (self):
     d = self._pack_body()
-    while (len(d)+2) % 8: d += "\x00" # sloppy
+    while (len(d)+2) % 8: d += b"\x00" # sloppy
     return struct.pack("BB", self.TYPE, (len(d)+2)//8) + d
 
   @classmethod
@@ -365,10 +365,10 @@ class NDOptPrefixInformation (NDOptionBase):
     if self.is_autonomous: f |= self.AUTONOMOUS_FLAG
     return f
 
-  def pack (self):
+  def _pack_body (self):
     s = struct.pack("!BBII", self.prefix_length, self.flags,
         self.valid_lifetime,self.preferred_lifetime)
-    s += '\x00' * 4
+    s += b'\x00' * 4
     s += self.prefix.raw
     return s
 
@@ -392,7 +392,7 @@ class NDOptMTU (NDOptionBase):
     offset += 2 + 4
     return offset,o
 
-  def pack (self):
+  def _pack_body (self):
     return struct.pack("!HI", 0, self.mtu)
 
 
@@ -509,7 +509,7 @@ class NDRouterSolicitation (icmp_base):
     return offset,o
 
   def pack (self):
-    o = '\x00' * 4 # _PAD4
+    o = b'\x00' * 4 # _PAD4
     for opt in self.options:
       o += opt.pack()
     return o
@@ -555,7 +555,7 @@ class NDRouterAdvertisement (icmp_base):
     if buf_len is None: buf_len = len(raw)
 
     try:
-      o.hop_limit,flags,o.lifetime,o.reachable,o.retrans_time = \
+      o.hop_limit,flags,o.lifetime,o.reachable,o.retrans_timer = \
           struct.unpack_from("!BBHII", raw, offset)
       offset += 1 + 1 + 2 + 4 + 4
       offset,o.options = _parse_ndp_options(raw, prev, offset, buf_len)
@@ -578,10 +578,8 @@ class NDRouterAdvertisement (icmp_base):
     return f
 
   def pack (self):
-    o = '\x00' * 4 # _PAD4
-
-    o += struct.pack("!BBHII", self.hop_limit, self.flags, self.lifetime,
-        self.reachable, self.retrans_time)
+    o = struct.pack("!BBHII", self.hop_limit, self.flags, self.lifetime,
+        self.reachable, self.retrans_timer)
 
     for opt in self.options:
       o += opt.pack()
@@ -630,7 +628,7 @@ class NDNeighborSolicitation (icmp_base):
     return offset,o
 
   def pack (self):
-    o = '\x00' * 4 # _PAD4
+    o = b'\x00' * 4 # _PAD4
     o += self.target.raw
     for opt in self.options:
       o += opt.pack()
@@ -700,8 +698,8 @@ class NDNeighborAdvertisement (icmp_base):
     if self.is_router: o |= self.ROUTER_FLAG
     if self.is_solicited: o |= self.SOLICITED_FLAG
     if self.is_override : o |= self.OVERRIDE_FLAG
-    o = chr(o)
-    o += '\x00' * 3 # _PAD3
+    o = bytes([o])
+    o += b'\x00' * 3 # _PAD3
     o += self.target.raw
     for opt in self.options:
       o += opt.pack()
@@ -750,6 +748,8 @@ class TimeExceeded (icmp_base):
   def hdr (self, payload):
     return struct.pack('!I', 0) # Unused
 
+  pack = packet_base.pack # hdr() + payload, like other packet_base classes
+
 
 class PacketTooBig (icmp_base):
   "Packet Too Big Message"
@@ -779,7 +779,7 @@ class PacketTooBig (icmp_base):
     if buf_len is None: buf_len = len(raw)
 
     try:
-      o.mtu = struct.unpack_from("!I", raw, offset)
+      o.mtu = struct.unpack_from("!I", raw, offset)[0]
       offset += 4
 
       o.next = raw[offset:buf_len]
@@ -795,6 +795,8 @@ class PacketTooBig (icmp_base):
 
   def hdr (self, payload):
     return struct.pack('!I', self.mtu)
+
+  pack = packet_base.pack # hdr() + payload, like other packet_base classes
 
 
 class unpack_new_adapter (object):
